@@ -2,6 +2,8 @@ mod bcodec;
 mod engine;
 mod models;
 mod props;
+mod sim;
+mod world;
 
 use engine::Tier;
 
